@@ -27,7 +27,7 @@ claim('C09',
 claim('C10',
       'Bounded symbolic check of the real marginalize/filter_pops/reorder_pops/combine_pops/combine_two_pops/scramble_pop_ids/Misc.combine_pops '
       'against explicit re-indexing oracles (math.comb / Fractions) with one z3 real per entry: entries, masks, labels, folded flag, totals, '
-      'commutation with fold and project; 2-6 D shapes with unequal sample sizes 1-3 (1-4 thorough), every subset/permutation/merge set up to 5-D.',
+      'commutation with fold and project; 2-6 D shapes with unequal sample sizes 1-3 (1-4 thorough), every subset/permutation/merge set up to 5-D; plus three large-sample-size shapes (258,2),(2,259),(130,2,2) for fold/marginalize/reorder/scramble.',
       'doubles as reals; gammaln replaced by the exact integer-argument stub (validated against scipy); shapes enumerated, values symbolic',
       'DESIGN.md 3/C10')
 
@@ -48,7 +48,7 @@ claim('C06',
       'doubles as reals; grids rational (symbolic grids outside); at most two proportions symbolic at once, the others enumerated rationals',
       'DESIGN.md 3/C06')
 claim('C08',
-      'Bounded symbolic check of the real Spectrum.project/_cached_projection with exact log-space weights: every projected entry equals the hypergeometric expectation (math.comb oracle) for symbolic data, totals, two-stage=one-stage, axis-order independence, 1/i fixed point, mask = reachable-with-non-zero-weight, folded = fold(project(unfold)), upward projection refused, cold and scrambled-warm cache; 1-D n<=40 (all m), weights up to n=200 for selected m, 2-4-D small shapes.',
+      'Bounded symbolic check of the real Spectrum.project/_cached_projection with exact log-space weights: every projected entry equals the hypergeometric expectation (math.comb oracle) for symbolic data, totals, two-stage=one-stage, axis-order independence, 1/i fixed point, mask = reachable-with-non-zero-weight, folded = fold(project(unfold)), upward projection refused, cold and scrambled-warm cache; 1-D n<=40 (all m), weights up to n=258 for selected (n,m) including 127..129 / 255..257 as n, m and n-m, 2-4-D small shapes.',
       'doubles as reals; gammaln/exp replaced by exact log-rational stubs (float accuracy of the log-space formula outside)',
       'DESIGN.md 3/C08')
 claim('C11',
